@@ -207,14 +207,10 @@ pub fn run(_env: &Env, run: &Run) -> (Stats, Coverage) {
     }));
 
     // structural families: pumped runs a^k b / b a^k / a^k b a (k around 8, 16, 32, 64 and, for a
-    // few symbols, 128..1025) and every ASCII character at every offset of 7..33-byte ASCII strings
-    let fam = {
-        let mut v = pumped(&sigma, &PUMP_LENGTHS);
-        v.extend(pumped(&sigma[..sigma.len().min(6)], &PUMP_LENGTHS_LONG));
-        v.extend(ascii_blocks());
-        v
-    };
-    st.merge(run_family(&fam, |s, st| {
+    // few symbols, 128..1025) every ASCII character at every offset of 7..33-byte
+    // ASCII strings (two fillers), alphabet symbols alone and in pairs inside 16..41-byte ASCII strings,
+    // all of them at every address residue modulo 8 / 16 (sub-slices of a larger buffer)
+    st.merge(run_structural(&sigma, run.tier, |s, st| {
         let chars: Vec<char> = s.chars().collect();
         all_ops(s, &chars, st);
         st.count("out:returned");
@@ -269,7 +265,9 @@ pub fn run(_env: &Env, run: &Run) -> (Stats, Coverage) {
     st.sample(json!({"input": ["U+200C"], "op": "rule_zero_width_nonjoiner", "position": "usize::MAX", "expected": "Undefined, no arithmetic overflow"}));
     st.sample(json!({"input": "0xFFFFFFFF", "op": "get_value_from_codepoint / get_context_rule", "expected": "a value, no panic"}));
     let cov = Coverage {
-        rule: format!("(a) every scalar value in 12 templates (alone, next to ASCII, before/after/around spaces, after NBSP, after a Hebrew letter, before a combining mark, between a 2-byte letter and U+3000, around a fullwidth letter) through 54 operations: 4 profiles x (prepare, enforce, static prepare, static enforce, compare(s,s), compare(s,a), compare(a,s), static compare, 5 Rules methods) + allows of both classes; (b) every u32 in {} through get_value_from_codepoint of both classes and get_context_rule; (c) every string of length <= {} over a {}-symbol alphabet with one member of every behaviour class and every UTF-8 length, all operations; (c') pumped runs a^k b, b a^k, a^k b a for k in 6..9, 15..17, 30..33, 63..65 over the alphabet (127..1025 over 6 symbols) and every ASCII character at every offset of 7..33-byte ASCII strings, all operations; (c'') every ordered pair of equal-byte-length strings of length <= 3 over 9 symbols run one after the other in the same allocation; (d) the eight context rule functions on every such string of length <= 3 at positions 0..=len+1, usize::MAX-1, usize::MAX, usize::MAX/2, 2^32; oracle: no unwind (built with overflow checks and debug assertions on), no case running longer than 10 s (watchdog); non-trivial = strings with a multi-byte character", if exhaustive_u32 { "0..=u32::MAX" } else { "0..=0x1FFFFF + lattice" }, n, sigma.len()),
+        rule: format!("(a) every scalar value in 12 templates (alone, next to ASCII, before/after/around spaces, after NBSP, after a Hebrew letter, before a combining mark, between a 2-byte letter and U+3000, around a fullwidth letter) through 54 operations: 4 profiles x (prepare, enforce, static prepare, static enforce, compare(s,s), compare(s,a), compare(a,s), static compare, 5 Rules methods) + allows of both classes; (b) every u32 in {} through get_value_from_codepoint of both classes and get_context_rule; (c) every string of length <= {} over a {}-symbol alphabet with one member of every behaviour class and every UTF-8 length, all operations; (c') pumped runs a^k b, b a^k, a^k b a for k in 6..9, 15..17, 30..33, 63..65 over the alphabet (127..1025 over 6 symbols) every ASCII character at every offset of 7..33-byte
+    // ASCII strings (two fillers), alphabet symbols alone and in pairs inside 16..41-byte ASCII strings,
+    // all of them at every address residue modulo 8 / 16 (sub-slices of a larger buffer), all operations; (c'') every ordered pair of equal-byte-length strings of length <= 3 over 9 symbols run one after the other in the same allocation; (d) the eight context rule functions on every such string of length <= 3 at positions 0..=len+1, usize::MAX-1, usize::MAX, usize::MAX/2, 2^32; oracle: no unwind (built with overflow checks and debug assertions on), no case running longer than 10 s (watchdog); non-trivial = strings with a multi-byte character", if exhaustive_u32 { "0..=u32::MAX" } else { "0..=0x1FFFFF + lattice" }, n, sigma.len()),
         alphabet: json!(sigma.iter().map(|c| format!("U+{:04X}", *c as u32)).collect::<Vec<_>>()),
         bound_completed: format!("sweep 1,112,064 x 12 templates x 54 ops; tree length <= {} ({} strings)", n, tree_size(sigma.len(), n)),
         exhaustive: false,
